@@ -63,10 +63,17 @@ Print Assumptions C11_nonvacuous.
 Require Import PX.Spec.NsCheck PX.Model.DomCheck PX.Model.Headers PX.Proofs.NsSetting.
 (* every well-formed entry  prefix=uri  of the setting is declared on the root element ... *)
 Theorem C11_setting_entry_declared : forall root ns tok k v,
-  field root s_namespaces = Some ns -> In tok (py_split_ws ns) -> split_on 61%N tok = [k; v] -> k <> [] ->
+  field root s_namespaces = Some ns -> In tok (py_split_ws ns) -> ns_entry tok = Some (k, v) ->
   has_key (s_xmlns_colon ++ k) (nsmap_of root) = true.
 Proof. exact setting_entry_declared. Qed.
 Print Assumptions C11_setting_entry_declared.
+(* an entry is prefix, "=", URI, the prefix ending at the FIRST "=": a URI that holds "=" itself (a query string) is kept whole *)
+Theorem C11_ns_entry_shape : forall k v, k <> [] -> nochar 61%N k = true -> ns_entry (k ++ 61%N :: v) = Some (k, v).
+Proof. exact ns_entry_shape. Qed.
+Print Assumptions C11_ns_entry_shape.
+Theorem C11_ns_entry_only_that : forall tok k v, ns_entry tok = Some (k, v) -> tok = k ++ 61%N :: v /\ k <> [] /\ nochar 61%N k = true.
+Proof. exact ns_entry_inv. Qed.
+Print Assumptions C11_ns_entry_only_that.
 (* ... and a name that uses a prefix the root declares (a column such as bind::ex:y) passes the code's prefix test on the root and on
    every element below it, whatever else those elements declare *)
 Theorem C11_declared_prefix_usable : forall root p local rest,
